@@ -58,8 +58,15 @@ pub enum BCall {
 pub enum IoPart {
     /// only builder.isi() against the model
     None,
-    /// Framed::handshake(builder.isi()) over the simulated link with this write script
-    SimHandshake { imp: Imp, writes: Vec<WriteEv> },
+    /// Framed::handshake(builder.isi()) over the simulated link with this write script;
+    /// `after_failed_write`: the application first tried to write a packet the encoder refuses
+    /// on the same connection (that must leave no trace in the handshake)
+    SimHandshake {
+        imp: Imp,
+        writes: Vec<WriteEv>,
+        #[serde(default)]
+        after_failed_write: bool,
+    },
     /// the real connect_blocking / connect_async against a loopback listener / socket
     Connect { imp: Imp },
 }
@@ -442,8 +449,15 @@ impl Prop for C18 {
             Tier::Thorough => 200,
         };
         let io = if rng.chance(1, connect_den) {
-            // relay would need isrelay.lfs.net: never generated for the connect part
-            calls.retain(|c| !matches!(c, BCall::Relay));
+            // relay itself would need isrelay.lfs.net; but a builder that was a relay builder for a
+            // while and ends up on a direct transport must behave like any other
+            if rng.chance(1, 4) {
+                let at = rng.usize(0, calls.len());
+                calls.insert(at, BCall::Relay);
+            }
+            if model_of(&calls).proto == 2 {
+                calls.push(if rng.chance(1, 2) { BCall::Tcp } else { BCall::Udp(if rng.chance(1, 2) { None } else { Some(0) }) });
+            }
             // a concrete local port must be free: only None / port 0 are used with real sockets
             for c in calls.iter_mut() {
                 if let BCall::Udp(Some(p)) = c {
@@ -481,6 +495,7 @@ impl Prop for C18 {
             IoPart::SimHandshake {
                 imp: if rng.chance(1, 2) { Imp::Blocking } else { Imp::Tokio },
                 writes,
+                after_failed_write: rng.chance(1, 6),
             }
         } else {
             if rng.chance(1, 20) {
@@ -532,6 +547,9 @@ impl Prop for C18 {
         if m.proto == 1 && m.udp_local.is_none() {
             rep.probe("udp_without_local_address");
         }
+        if matches!(sc.io, IoPart::Connect { .. }) && m.proto != 2 && sc.calls.iter().any(|c| matches!(c, BCall::Relay)) {
+            rep.probe("connect_after_relay_selection");
+        }
         if sc.calls.iter().filter(|c| matches!(c, BCall::Flag(..))).count() >= 2 && sc.calls.iter().any(|c| matches!(c, BCall::Flags(_))) {
             rep.probe("flag_setters_and_wholesale_mixed");
         }
@@ -569,8 +587,11 @@ impl Prop for C18 {
 
         match &sc.io {
             IoPart::None => {},
-            IoPart::SimHandshake { imp, writes } => {
+            IoPart::SimHandshake { imp, writes, after_failed_write } => {
                 rep.probe("sim_handshake");
+                if *after_failed_write {
+                    rep.probe("handshake_after_refused_packet");
+                }
                 let exp = match expected_frame(m.mode, &want) {
                     Ok(b) => b,
                     Err(_) => {
@@ -579,7 +600,7 @@ impl Prop for C18 {
                         return rep;
                     },
                 };
-                let (res, out, shorts) = sim_handshake(*imp, m.mode, isi, writes);
+                let (res, out, shorts) = sim_handshake(*imp, m.mode, isi, writes, *after_failed_write);
                 h.write(&out);
                 if shorts > 0 {
                     rep.fault("short_write");
@@ -656,18 +677,18 @@ impl Prop for C18 {
             let _ = s.calls.remove(i);
             c.push(s);
         }
-        if let IoPart::SimHandshake { imp, writes } = &sc.io {
+        if let IoPart::SimHandshake { imp, writes, after_failed_write } = &sc.io {
             if !writes.is_empty() {
                 c.push(BuilderSc {
                     calls: sc.calls.clone(),
-                    io: IoPart::SimHandshake { imp: *imp, writes: vec![] },
+                    io: IoPart::SimHandshake { imp: *imp, writes: vec![], after_failed_write: *after_failed_write },
                 });
                 for i in 0..writes.len().min(60) {
                     let mut w = writes.clone();
                     let _ = w.remove(i);
                     c.push(BuilderSc {
                         calls: sc.calls.clone(),
-                        io: IoPart::SimHandshake { imp: *imp, writes: w },
+                        io: IoPart::SimHandshake { imp: *imp, writes: w, after_failed_write: *after_failed_write },
                     });
                 }
             }
@@ -715,6 +736,8 @@ impl Prop for C18 {
             "sim_handshake",
             "short_write",
             "handshake_write_error",
+            "handshake_after_refused_packet",
+            "connect_after_relay_selection",
             "connect_tcp_blocking",
             "connect_tcp_tokio",
             "connect_udp_blocking",
@@ -733,12 +756,27 @@ fn summarize(calls: &[BCall]) -> String {
     }
 }
 
-fn sim_handshake(imp: Imp, mode: SizeMode, isi: Isi, writes: &[WriteEv]) -> (Result<Result<(), String>, String>, Vec<u8>, u64) {
+fn sim_handshake(imp: Imp, mode: SizeMode, isi: Isi, writes: &[WriteEv], after_failed_write: bool) -> (Result<Result<(), String>, String>, Vec<u8>, u64) {
+    // a packet the encoder refuses (HCP with h_mass 201 in its last entry), fixed so that the scenario stays plain data
+    let refused: Option<Packet> = if after_failed_write {
+        let mut f = vec![0u8; 68];
+        f[0] = mode.size_byte(68);
+        f[1] = 56;
+        f[64] = 201;
+        crate::model::ref_decode_packet(mode, &f).1
+    } else {
+        None
+    };
     let link = Arc::new(Mutex::new(LinkState::new(imp == Imp::Tokio, vec![], &[], writes)));
     let r = match imp {
         Imp::Blocking => {
             let mut f = insim::net::blocking_impl::Framed::new(Box::new(SimStream(link.clone())), Codec::new(mode.to_mode()));
-            guarded(move || f.handshake(isi).map_err(|e| format!("{:?}", e)))
+            guarded(move || {
+                if let Some(p) = refused {
+                    let _ = f.write(p);
+                }
+                f.handshake(isi).map_err(|e| format!("{:?}", e))
+            })
         },
         Imp::Tokio => {
             let l2 = link.clone();
@@ -746,6 +784,9 @@ fn sim_handshake(imp: Imp, mode: SizeMode, isi: Isi, writes: &[WriteEv]) -> (Res
                 let rt = tokio::runtime::Builder::new_current_thread().enable_time().start_paused(true).build().unwrap();
                 rt.block_on(async move {
                     let mut f = insim::net::tokio_impl::Framed::new(Box::new(SimStream(l2)), Codec::new(mode.to_mode()));
+                    if let Some(p) = refused {
+                        let _ = f.write(p).await;
+                    }
                     // the link self-wakes on Pending, so awaiting directly is deterministic here
                     f.handshake(isi, Duration::from_secs(30)).await.map_err(|e| format!("{:?}", e))
                 })
